@@ -1,75 +1,36 @@
-(* C11 model, part 2: the hold-out splits of batchie.retrospective
-     create_plate_balanced_holdout_set_among_masked_plates -> [holdout_balanced]
-     create_random_holdout                                 -> [holdout_random]
-   The fraction is the exact rational value [num/den] of the Python float.  The code computes
-   n = math.ceil(size * fraction) with a float product; the model either computes the exact
-   ceiling ([counts] = None; the harness uses this mode for dyadic fractions, where the float
-   product is exact) or takes Python's own n as an oracle input ([counts] = Some ...).
-   rng.choice(indices, n, replace=False) answers are oracle inputs ([draw] stream); an answer
-   whose length is not n is refused (tag 91) - numpy returns exactly n values.
-   Both result screens are built with the parent's mappings, so only the plate-uniformity
-   check of the constructor can fail ([construct]).  Tag 5: fraction outside [0,1].
+(* C03 / C12 model, part 2: the hold-out split as the origin of the (training, test) pair.
+   Transcribes the two constructor calls at the end of
+     batchie.retrospective.create_plate_balanced_holdout_set_among_masked_plates  (retrospective.py:690-712)
+   (create_random_holdout builds its halves the same way).
+     keep_screen    = Screen(rows[~sel], observations[~sel], observation_mask = screen.observation_mask[~sel],
+                             treatment_mapping = screen.treatment_mapping, sample_mapping = screen.sample_mapping)
+     holdout_screen = Screen(rows[sel],  observations[sel],  observation_mask = ones,
+                             treatment_mapping = screen.treatment_mapping, sample_mapping = screen.sample_mapping)
+   Both halves DO receive the parent's mappings.
+   Abstracted: WHICH rows are held out.  The selection vector [sel] (one boolean per row) is an oracle
+   input: the harness records the results of the rng.choice calls of the real function and derives it;
+   the theorems quantify over every selection vector.  (That the selection takes ceil(fraction * size)
+   rows of every unobserved plate is C11's subject.)
+   Error tag 10: selection length <> size (never produced by the code; malformed wire input).
    No proofs here. *)
-From Coq Require Import ZArith List Bool Arith.
-From Batchie Require Import Lib.Sexp Model.Encode Model.Screen Model.Retro.
+From Coq Require Import ZArith List Bool.
+From Batchie Require Import Lib.Sexp Model.Encode Model.Screen Model.Reveal.
 Import ListNotations.
-Open Scope nat_scope.
+Open Scope Z_scope.
 
-(* ceil(size * num / den) *)
-Definition ceil_frac (size : nat) (num : Z) (den : positive) : Z :=
-  ((Z.of_nat size * num + Zpos den - 1) / Zpos den)%Z.
-
-(* plate.is_observed = np.all(mask[plate]) *)
-Definition plate_observed (p : name) (rows : list row) : bool :=
-  forallb r_mask (filter (in_plate p) rows).
-
-Definition next_count (size : nat) (num : Z) (den : positive) (counts : option (list Z))
-  : result (Z * option (list Z)) :=
-  match counts with
-  | None => Ok (ceil_frac size num den, None)
-  | Some (c :: r) => Ok (c, Some r)
-  | Some [] => Err 90%Z
-  end.
-
-Fixpoint ho_plates (n : nat) (num : Z) (den : positive) (rows : list row) (plates : list name)
-         (counts : option (list Z)) (ds : list draw) (sel : bvec) : result (bvec * list draw) :=
-  match plates with
-  | [] => Ok (sel, ds)
-  | p :: rest =>
-      if plate_observed p rows then ho_plates n num den rows rest counts ds sel
-      else
-        dor c <- next_count (vcount (plate_vec p rows)) num den counts;
-        let '(n_sample, counts') := c in
-        dor d <- take_ints ds;
-        let '(idx, ds') := d in
-        if negb (Z.of_nat (length idx) =? n_sample)%Z then Err 91%Z
-        else ho_plates n num den rows rest counts' ds' (vor sel (vof_idx n idx))
-  end.
-
-Definition split_by (sel : bvec) (rows : list row) : result (list row * list row) :=
-  dor k <- construct (vselect (map negb sel) rows);
-  dor h <- construct (map (set_mask true) (vselect sel rows));
-  Ok (k, h).
-
-Definition holdout_balanced (num : Z) (den : positive) (counts : option (list Z))
-           (rows : list row) (ds : list draw) : result (list row * list row * list draw) :=
-  if (num <? 0)%Z || (Zpos den <? num)%Z then Err 5%Z
+Definition holdout_split (p : screen) (sel : list bool) : result (screen * screen) :=
+  if negb (Nat.eqb (length sel) (length (s_rows p))) then Err 10
   else
-    let n := length rows in
-    dor r <- ho_plates n num den rows (plate_names_of rows) counts ds (repeat false n);
-    let '(sel, ds') := r in
-    dor kh <- split_by sel rows;
-    Ok (kh, ds').
+    let keep := select (map negb sel) (s_rows p) in
+    let held := map (with_mask true) (select sel (s_rows p)) in
+    dor tr <- mk_screen keep (s_arity p) (s_ctrl p) (Some (s_tmap p, true)) (Some (s_smap p, true)) true true;
+    dor te <- mk_screen held (s_arity p) (s_ctrl p) (Some (s_tmap p, true)) (Some (s_smap p, true)) true true;
+    Ok (tr, te).
 
-Definition holdout_random (num : Z) (den : positive) (count : option Z)
-           (rows : list row) (ds : list draw) : result (list row * list row * list draw) :=
-  if (num <? 0)%Z || (Zpos den <? num)%Z then Err 5%Z
-  else
-    let n := length rows in
-    let n_sample := match count with Some c => c | None => ceil_frac n num den end in
-    dor d <- take_ints ds;
-    let '(idx, ds') := d in
-    if negb (Z.of_nat (length idx) =? n_sample)%Z then Err 91%Z
-    else
-      dor kh <- split_by (vof_idx n idx) rows;
-      Ok (kh, ds').
+(* which half a history starts from *)
+Definition half (test : bool) (pr : screen * screen) : screen := if test then snd pr else fst pr.
+
+(* a whole simulation: construct the parent, split, run a history on one half *)
+Definition lifecycle (v : variant) (p : screen) (sel : list bool) (test : bool) (ops : list op) : result screen :=
+  dor pr <- holdout_split p sel;
+  history v ops (half test pr).
